@@ -73,7 +73,14 @@ func ClearTextPassword(validate func(ctx context.Context, database, username, pa
 		}
 
 		if !valid {
-			return ctx, ErrorCode(writer, pgerror.WithCode(errors.New("invalid username/password"), codes.InvalidPassword))
+			err = pgerror.WithCode(errors.New("invalid username/password"), codes.InvalidPassword)
+			if werr := ErrorCode(writer, err); werr != nil {
+				return ctx, werr
+			}
+
+			// NOTE: the rejection itself has to be returned, ErrorCode only
+			// reports whether the error could be written to the client.
+			return ctx, err
 		}
 
 		return ctx, writeAuthType(writer, authOK)
